@@ -33,7 +33,8 @@ RULE = ("ADMGs with 3-5 nodes (thorough: up to 6; half random, half mutations of
         "row (several successive exchanges, optionally followed by a refusal through a bow arc at a treatment) and napkin-like graphs "
         "with extra conditions (final ID call through line 7 on a carried estimand), 4-7 nodes (gap review round 5). "
         "Every returned estimand is evaluated exactly on 2-3 random positive SCMs at every assignment. A case is "
-        "non-trivial when rule 2 was tested with both outcomes (some exchange made or refused) or ID used lines 4-7.")
+        "non-trivial when rule 2 was tested with both outcomes (some exchange made or refused) or ID used lines 4-7."
+        " A SMALL-SCOPE EXHAUSTIVE stream: every labelled ADMG on 2-3 nodes x every valid conditional query (thorough: all 3612; quick: a fixed 1-in-5 stride).")
 ASSUMPTIONS = [
     "argument FORMS (harness/forms.py, harness/oracles/id_run.py id_slots; chosen deterministically per case, stored in the case, tagged form_*): treatments / outcomes / conditions as set / frozenset / list / tuple / dict keys / generator / iterator / map or a bare Variable for a one-element set; the Identification made by Identification(query=Query(..), graph=..) by keyword or by position, by from_parts(conditions=..), or by from_expression from P[X](Y | Z) and P(Y @ X | Z @ X) (valid queries only); identify_outcomes positional (conditions as fourth positional argument too) or by keyword; the graph through every public constructor. The model takes lists; independence of the form is a runtime clause decided by correspondence + oracle",
     "model class: positive discrete semi-Markovian SCMs with independent root latents (Y0/Spec/Scm.lean)",
